@@ -116,7 +116,7 @@ func vxH02Unpack(dotu bool, lo int, hi int, only int, strmax int) {
 	vxObserve("N", N)
 	vxAllocReset()
 	fc, n, err := Unpack(buf, dotu)
-	vxAssert(vxAllocBytes() <= 16*uint64(N)+(2<<20), "alloc-bounded")
+	vxAssert(vxAllocBytes() <= 32*uint64(N)+4096, "alloc-bounded")
 	if err != nil {
 		vxAssert(fc == nil, "error-returns-no-message")
 		vxAssert(n == 0, "error-consumes-nothing")
@@ -188,7 +188,7 @@ func vxH02Dir(dotu bool, lo int, hi int, strmax int) {
 	vxObserve("N", N)
 	vxAllocReset()
 	d, rest, amt, err := UnpackDir(buf, dotu)
-	vxAssert(vxAllocBytes() <= 16*uint64(N)+(2<<20), "alloc-bounded")
+	vxAssert(vxAllocBytes() <= 32*uint64(N)+4096, "alloc-bounded")
 	if err != nil {
 		vxAssert(vxAll(d == nil, amt == 0, len(rest) == 0), "error-shape")
 		vxReach("err")
